@@ -22,7 +22,7 @@ func init() { core.Register(c12{}) }
 func (c12) ID() string    { return "C12" }
 func (c12) Level() string { return "exploration" }
 func (c12) Rule() string {
-	return "(a) direct calls of framework_helper.SortOrderedComponents on seeded multisets of 0..40 participants over the classes {PriorityOrdered, Ordered, unordered, Priority-without-Order (= unordered)} with Order values from {ties, negatives, 0, +-1, MinInt, MaxInt, random}, in random input orders; (b) real starts with 0..8 logging user post-processors, 0..8 runners and 0..6 loaders of all classes: the invocation logs (post-processor before/after callbacks per component, Run calls, LoadConfig calls) are checked with the same predicate. Contract: output is a permutation of the input (every participant exactly once); class rank never decreases (priority-ordered < ordered < unordered); Order never decreases inside the first two classes. Stability is not required. non-trivial = >= 3 participants from >= 2 classes with at least one Order tie or extreme; distinct = multiset signature; half of the starts mix lazy (used as registered) and created logging post-processors; in a third one processor supplies a component before instantiation (callbacks: prefix of before-instantiation ending with the supplier, complete after-initialization sequence); the sorter applied twice to one caller-owned list; post-processors whose order is settled in PostProcessComponentFactory; a created post-processor component decorated by an earlier processor with a non-post-processor object; runners that wire the application itself; starts whose loaders are added one by one, the last field-wise equal to an earlier one; callback-kind completeness per created component; an importing loader (AddLoaders from inside LoadConfig); starts with lazy post-processors only (observer left out); unhashable participants in the sorter; a lazy post-processor that is an ordered runner; a loader that fails on its first call only"
+	return "(a) direct calls of framework_helper.SortOrderedComponents on seeded multisets of 0..40 participants over the classes {PriorityOrdered, Ordered, unordered, Priority-without-Order (= unordered)} with Order values from {ties, negatives, 0, +-1, MinInt, MaxInt, random}, in random input orders; (b) real starts with 0..8 logging user post-processors, 0..8 runners and 0..6 loaders of all classes: the invocation logs (post-processor before/after callbacks per component, Run calls, LoadConfig calls) are checked with the same predicate. Contract: output is a permutation of the input (every participant exactly once); class rank never decreases (priority-ordered < ordered < unordered); Order never decreases inside the first two classes. Stability is not required. non-trivial = >= 3 participants from >= 2 classes with at least one Order tie or extreme; distinct = multiset signature; half of the starts mix lazy (used as registered) and created logging post-processors; in a third one processor supplies a component before instantiation (callbacks: prefix of before-instantiation ending with the supplier, complete after-initialization sequence); the sorter applied twice to one caller-owned list; post-processors whose order is settled in PostProcessComponentFactory; a created post-processor component decorated by an earlier processor with a non-post-processor object; runners that wire the application itself; starts whose loaders are added one by one, the last field-wise equal to an earlier one; callback-kind completeness per created component; an importing loader (AddLoaders from inside LoadConfig); starts with lazy post-processors only (observer left out); unhashable participants in the sorter; a lazy post-processor that is an ordered runner; a loader that fails on its first call only; one post-processor instance handed over twice; reinitLoaders family (loaders added between two initialisations)"
 }
 func (c12) Assumptions() []string {
 	return []string{"built-in post-processors interleave with the logging ones; only the relative order of the logging participants is judged"}
